@@ -258,6 +258,14 @@ class World:
             return tag + ": retargeting an alignment changed the pseudoinverse taken from it earlier"
         if not np.array_equal(inv_ref.source.points, src_inv):
             return tag + ": retargeting changed the source of an inverse taken earlier"
+        # the plain (non-alignment) transform taken from an alignment is its own object as well
+        if hasattr(al, "as_non_alignment") and hasattr(al, "h_matrix"):
+            c3 = al.copy()
+            plain = c3.as_non_alignment()
+            if type(plain).__name__.startswith("Alignment") or not L.close(plain.h_matrix, c3.h_matrix, 0):
+                return tag + ": as_non_alignment() is not the same map as a plain family member"
+            if np.shares_memory(plain.h_matrix, c3.h_matrix):
+                return tag + ": as_non_alignment() shares its matrix with the alignment it was taken from"
         fx = _ctor(cfg)(self.source(cfg), PointCloud(X.copy()))
         if not self._maps(c, fx, probe):
             return tag + ": a copy retargeted after its inverse was taken and retargeted differs from a fresh construction"
